@@ -17,6 +17,14 @@ are recorded.  The recorded operation trace is
     (correspondence) and (b) loaded with the real load() in a fresh FileStorage — the
     direct oracle: it must load and equal the complete old or the complete new settings.
 
+Fault injection: for every file operation recorded during the ordinary save() the scenario
+is rebuilt and save() runs once more with ONE injected OSError at exactly that operation
+(open, write, flush, fsync, close, replace/rename, unlink; a rename with EBUSY, EXDEV, EACCES
+and EPERM, data operations with EBUSY and ENOSPC).  Whatever the code then does — clean-up,
+retry, a fallback that writes somewhere else — is recorded, judged by the model and
+materialised crash point by crash point for the real load() exactly like the ordinary trace:
+the property demands old-or-new at every instant whether or not an operation failed.
+
 Nothing here depends on the shape of the save: any sequence of the recorded calls is
 judged by its crash states.  A write-mode open the model has no operation for ("a", "x",
 "+") is sent as an unknown op and reported (never defaulted).
@@ -31,8 +39,9 @@ import tempfile
 
 RULE = ("(old, new) settings-content pairs: fixed kinds (no file -> non-empty, empty device list -> non-empty, "
         "growing, shrinking to a shorter file, unicode credentials, non-empty -> all devices removed, failing write) "
-        "plus PRNG-generated device lists; one case = one crash point (operation boundary x persisted prefix) of the "
-        "real save() trace; non-trivial = the crash point lies strictly inside the save (after its first and before "
+        "plus PRNG-generated device lists; every pair is saved once normally and once per recorded file operation with a single "
+        "injected OSError at that operation (rename: EBUSY/EXDEV/EACCES/EPERM); one case = one crash point (operation boundary x persisted prefix) of the "
+        "real save() trace (ordinary or faulted); non-trivial = the crash point lies strictly inside the save (after its first and before "
         "its last operation) or inside a write; distinct = (pair, boundary, prefix)")
 ASSUMPTIONS = [
     "the OS makes rename/replace of a file within one directory atomic (trusted, not modelled further)",
@@ -64,6 +73,7 @@ class _Proxy:
         rec = self._rec
         if rec.fail_write and rec.fail_write(self._path):
             raise OSError(28, "No space left on device (injected by harness/c15.py)")
+        rec.attempt("write")
         rec.add(("w", self._path, self._bytes(data)))
         return self._fh.write(data)
 
@@ -72,14 +82,20 @@ class _Proxy:
             self.write(l)
 
     def flush(self):
+        self._rec.attempt("flush")
         self._rec.add(("f", self._path))
         return self._fh.flush()
 
     def close(self):
         if not self._closed:
             self.__dict__["_closed"] = True
+            # a failing close still releases the descriptor and writes what was buffered:
+            # the operation takes effect, then the error is reported
             self._rec.add(("c", self._path))
             self._rec.open_files.discard(self)
+            self._fh.close()
+            self._rec.attempt("close")
+            return None
         return self._fh.close()
 
     def truncate(self, *a):
@@ -101,12 +117,25 @@ class _Proxy:
 
 
 class Recorder:
-    def __init__(self, root, fail_write=None):
+    def __init__(self, root, fail_write=None, fault_at=None, fault_errno=16):
         self.root = os.path.realpath(root)
         self.ops = []
         self.open_files = set()
         self.fail_write = fail_write
         self.active = False
+        self.fault_at = fault_at          # index of the operation attempt that raises OSError
+        self.fault_errno = fault_errno
+        self.attempts = 0
+        self.fault_kind = None
+
+    def attempt(self, kind):
+        """Called once per file-system operation (inside the scratch directory) right
+        before it takes effect; the `fault_at`-th one fails instead (single fault)."""
+        n = self.attempts
+        self.attempts += 1
+        if self.fault_at is not None and n == self.fault_at:
+            self.fault_kind = kind
+            raise OSError(self.fault_errno, "injected fault at file operation %d (%s) by harness/c15.py" % (n, kind))
 
     def inside(self, p):
         try:
@@ -129,6 +158,7 @@ class Recorder:
             rp = rec.inside(file) if not isinstance(file, int) else None
             if rp is None or not any(c in mode for c in "wax+"):
                 return real_open(file, mode, buffering, encoding, *a, **k)
+            rec.attempt("open")
             if "w" in mode and "+" not in mode:
                 rec.add(("o", rp))
             else:
@@ -143,6 +173,8 @@ class Recorder:
         def mv(real):
             def f(src, dst, *a, **k):
                 s, d = rec.inside(src), rec.inside(dst)
+                if (s is not None or d is not None) and os.path.lexists(src):
+                    rec.attempt("rename")
                 res = real(src, dst, *a, **k)
                 if s is not None or d is not None:
                     rec.add(("r", s or "<outside>", d or "<outside>"))
@@ -155,6 +187,8 @@ class Recorder:
         def rm(real):
             def f(p, *a, **k):
                 rp = rec.inside(p)
+                if rp is not None and os.path.lexists(p):
+                    rec.attempt("unlink")
                 res = real(p, *a, **k)
                 if rp is not None:
                     rec.add(("u", rp))
@@ -162,13 +196,17 @@ class Recorder:
             return f
 
         def fsync(fd):
+            hit = None
             for px in list(rec.open_files):
                 try:
                     if px._fh.fileno() == (fd if isinstance(fd, int) else fd.fileno()):
-                        rec.add(("s", px._path))
+                        hit = px
                         break
                 except Exception:
                     pass
+            if hit is not None:
+                rec.attempt("fsync")
+                rec.add(("s", hit._path))
             return o_fsync(fd)
 
         builtins.open = open_
@@ -390,160 +428,208 @@ def _uniq(devs):
 
 # --------------------------------------------------------------------------- one pair
 
-def run_pair(ctx, loop, label, old_devs, new_devs, mode, full_prefixes, lean_jobs):
+def _scenario(ctx, loop, root, sub, label, old_devs, new_devs):
+    """Build, through the real API, the old settings file and a FileStorage holding the new
+    content that is about to be saved.  Returns None when there is nothing to save."""
     from pyatv.storage.file_storage import FileStorage
 
+    work = os.path.join(root, sub)
+    os.makedirs(work)
+    target = os.path.join(work, "pyatv.conf")
+    if old_devs is not None:
+        st0 = FileStorage(target, loop)
+        _populate(loop, st0, _uniq(old_devs))
+        if not st0.changed:
+            # an empty storage does not write: force the canonical empty file
+            with open(target, "w", encoding="utf-8") as f:
+                f.write(json.dumps({"version": 1, "devices": []}) + "\n")
+        else:
+            loop.run_until_complete(st0.save())
+    old_bytes = open(target, "rb").read() if os.path.exists(target) else None
+    obs_old = _fresh_load(loop, target)
+    if obs_old[0] != "ok":
+        ctx.fail("setup:old-file-does-not-load", {"pair": label}, obs_old, "old file loads", "the completely saved old file does not load")
+        return None
+    st = FileStorage(target, loop)
+    loop.run_until_complete(st.load())
+    for s in list(st.settings):
+        loop.run_until_complete(st.remove_settings(s))
+    _populate(loop, st, _uniq(new_devs))
+    if not st.changed:
+        return None
+    return {"work": work, "target": target, "old_bytes": old_bytes, "content_old": obs_old[1],
+            "content_new": _content(st), "storage": st}
+
+
+def _observe(ctx, loop, root, sub, sc, case_base, rec, full_prefixes, lean_jobs):
+    """Run the real save() of scenario `sc` under recorder `rec`; judge the recorded trace:
+    completeness of the recording, final content, every crash state (real load() oracle);
+    queue the trace for the Lean driver.  Returns the number of recorded operations."""
+    st, work, target = sc["storage"], sc["work"], sc["target"]
+    old_bytes, content_old, content_new = sc["old_bytes"], sc["content_old"], sc["content_new"]
+    raised = None
+    with rec:
+        try:
+            loop.run_until_complete(st.save())
+        except Exception as e:
+            raised = type(e).__name__
+    fault = rec.fault_kind
+    ctx.note(("fault:%s:" % fault if fault else "") + ("save-raised:%s" % raised if raised else "save-completed"))
+    final_listing = {n: open(os.path.join(work, n), "rb").read() for n in sorted(os.listdir(work))}
+    new_bytes = final_listing.get("pyatv.conf")
+
+    toks = {os.path.realpath(target): "p0"}
+
+    def tok(p):
+        return toks.setdefault(p, "p%d" % len(toks))
+
+    words = [_op_word(op, tok) for op in rec.ops]
+    names = {t: os.path.basename(p) for p, t in toks.items()}
+    trace = []
+    for op in rec.ops:
+        if op[0] == "w":
+            trace.append(("w", tok(op[1]), op[2]))
+        elif op[0] == "r":
+            trace.append(("r", tok(op[1]), tok(op[2])))
+        else:
+            trace.append((op[0], tok(op[1])))
+    case_base = dict(case_base, trace=words)
+    if fault:
+        case_base["injected_fault"] = {"operation_index": rec.fault_at, "operation": fault}
+    ctx.note(("fault-" if fault else "") + "trace-shape:" + "".join(w[0] for w in words))
+
+    unknown = [w for w in words if w.startswith("unknown-")]
+    # --- completeness of the recording: replaying it must reproduce the real directory
+    okreplay = True
+    try:
+        rp = _Replayer(os.path.join(root, sub + "-full"), names, old_bytes)
+        for op in trace:
+            rp.step(op)
+        for fh in rp.fds.values():
+            fh.close()
+        if rp.listing() != final_listing:
+            okreplay = False
+    except ValueError:
+        okreplay = False
+    if not okreplay or unknown:
+        ctx.disagree(case_base, {"final_dir": {k: v.hex() for k, v in final_listing.items()}},
+                     "recorded trace does not explain the directory / contains operations the model lacks: %s" % unknown,
+                     where="trace recording")
+        if unknown:
+            return len(rec.ops)
+
+    # --- completed save really saved; a save that raised kept old (or already has new)
+    obs_final = _fresh_load(loop, target)
+    if raised is None:
+        if obs_final != ("ok", content_new):
+            ctx.fail("save-complete:content-differs", case_base, obs_final, content_new,
+                     "after a completed save() a fresh load does not give the saved content")
+    else:
+        if obs_final not in (("ok", content_old), ("ok", content_new)):
+            ctx.fail("save-failed:old-content-lost", case_base, obs_final, content_old,
+                     "save() raised %s and the file holds neither the previous nor the new content" % raised)
+        left = [n for n in final_listing if n != "pyatv.conf"]
+        ctx.note("failed-save-leftover-files:%d" % len(left))
+
+    # --- crash points: real materialisation + oracle
+    groups = []
+    for i in range(len(trace) + 1):
+        probe = _Replayer(os.path.join(root, "%s-probe%d" % (sub, i)), names, old_bytes)
+        for op in trace[:i]:
+            probe.step(op)
+        tp = len(probe.pend.get("p0", b""))
+        others = max([len(v) for t, v in probe.pend.items() if t != "p0"] + [0])
+        for fh in probe.fds.values():
+            fh.close()
+        pend_len = tp if tp else others
+        row = {}
+        for k in _prefixes(pend_len, full_prefixes):
+            r = _Replayer(os.path.join(root, "%s-c%d_%d" % (sub, i, k)), names, old_bytes)
+            for op in trace[:i]:
+                r.step(op)
+            r.crash(k)
+            content = r.target()
+            obs = _fresh_load(loop, r.p("p0"))
+            shutil.rmtree(r.root, ignore_errors=True)
+            inside = (0 < i < len(trace)) or k not in (0, pend_len)
+            ctx.case([case_base["pair"], case_base.get("mode"), i, k], inside)
+            ctx.note("crash-point:%s" % ("boundary" if k in (0, pend_len) else "inside-write"))
+            if tp:
+                row[k] = content
+            else:
+                row.setdefault(0, content)
+            if obs not in (("ok", content_old), ("ok", content_new)):
+                if obs[0] == "raises":
+                    kind = "empty-file" if content == b"" else "truncated-file"
+                    sig = "save-crash:%s:load-raises" % kind
+                else:
+                    sig = "save-crash:loads-neither-old-nor-new"
+                if fault:
+                    sig += ":after-failed-" + fault
+                ctx.fail(sig, dict(case_base, crash_after_ops=i, persisted_prefix=k, target_hex=_hex(content)),
+                         obs, "load() gives the complete old or the complete new settings",
+                         "%sprocess death after %d of %d file operations of save() (persisted prefix %d) leaves a settings "
+                         "file that %s" % ("with the %s at file operation %d failing (OSError), " % (fault, rec.fault_at) if fault else "",
+                                           i, len(trace), k, "load() rejects" if obs[0] == "raises" else "is neither old nor new"))
+        shutil.rmtree(probe.root, ignore_errors=True)
+        groups.append((tp, row))
+    lean_jobs.append((case_base, old_bytes, new_bytes if new_bytes is not None else b"", words, groups, raised,
+                      fault, final_listing.get("pyatv.conf")))
+    return len(rec.ops)
+
+
+def run_pair(ctx, loop, label, old_devs, new_devs, mode, full_prefixes, lean_jobs, max_faults=None):
+    """mode: None   = the ordinary save(), then save() once more per recorded file operation
+                      with ONE injected OSError at that operation (fallback/clean-up paths);
+             "fail" = every write raises;
+             "fault:<n>[:<errno>]" = only the run with the fault at operation n (replay)."""
     root = tempfile.mkdtemp(prefix="verif-c15-", dir="/tmp")
     try:
-        work = os.path.join(root, "live")
-        os.makedirs(work)
-        target = os.path.join(work, "pyatv.conf")
-        # --- old content through the real API (not recorded)
-        if old_devs is not None:
-            st0 = FileStorage(target, loop)
-            _populate(loop, st0, _uniq(old_devs))
-            if not st0.changed:
-                # an empty storage does not write: force the canonical empty file
-                with open(target, "w", encoding="utf-8") as f:
-                    f.write(json.dumps({"version": 1, "devices": []}) + "\n")
-            else:
-                loop.run_until_complete(st0.save())
-        old_bytes = open(target, "rb").read() if os.path.exists(target) else None
-        obs_old = _fresh_load(loop, target)
-        if obs_old[0] != "ok":
-            ctx.fail("setup:old-file-does-not-load", {"pair": label}, obs_old, "old file loads", "the completely saved old file does not load")
-            return
-        content_old = obs_old[1]
-
-        # --- the storage whose save() is observed
-        st = FileStorage(target, loop)
-        loop.run_until_complete(st.load())
-        for s in list(st.settings):
-            loop.run_until_complete(st.remove_settings(s))
-        _populate(loop, st, _uniq(new_devs))
-        content_new = _content(st)
-        if not st.changed:
-            ctx.note("pair-skipped-unchanged")
-            return
-
-        failing = (lambda p: True) if mode == "fail" else None
-        rec = Recorder(work, fail_write=failing)
-        raised = None
-        with rec:
-            try:
-                loop.run_until_complete(st.save())
-            except Exception as e:
-                raised = type(e).__name__
-        ctx.note("save-raised:%s" % raised if raised else "save-completed")
-        final_listing = {n: open(os.path.join(work, n), "rb").read() for n in sorted(os.listdir(work))}
-        new_bytes = final_listing.get("pyatv.conf")
-
-        # tokens
-        toks = {os.path.realpath(target): "p0"}
-
-        def tok(p):
-            return toks.setdefault(p, "p%d" % len(toks))
-
-        words = [_op_word(op, tok) for op in rec.ops]
-        names = {t: os.path.basename(p) for p, t in toks.items()}
-        trace = []
-        for op in rec.ops:
-            if op[0] == "w":
-                trace.append(("w", tok(op[1]), op[2]))
-            elif op[0] == "r":
-                trace.append(("r", tok(op[1]), tok(op[2])))
-            else:
-                trace.append((op[0], tok(op[1])))
-        case_base = {"pair": label, "old": old_devs, "new": new_devs, "mode": mode, "trace": words}
-        ctx.note("trace-shape:" + "".join(w[0] for w in words))
-
-        unknown = [w for w in words if w.startswith("unknown-")]
-        # --- completeness of the recording: replaying it must reproduce the real directory
-        okreplay = True
-        try:
-            rp = _Replayer(os.path.join(root, "full"), names, old_bytes)
-            for op in trace:
-                rp.step(op)
-            rp.crash(0) if False else None
-            for fh in rp.fds.values():
-                fh.close()
-            if rp.listing() != final_listing:
-                okreplay = False
-        except ValueError:
-            okreplay = False
-        if not okreplay or unknown:
-            ctx.disagree(case_base, {"final_dir": {k: v.hex() for k, v in final_listing.items()}},
-                         "recorded trace does not explain the directory / contains operations the model lacks: %s" % unknown,
-                         where="trace recording")
-            # the crash oracle below still runs on what was recorded when it is replayable
-            if unknown:
-                return
-
-        # --- completed save really saved (or, when it raised, kept the old content)
-        obs_final = _fresh_load(loop, target)
-        if raised is None:
-            if obs_final != ("ok", content_new):
-                ctx.fail("save-complete:content-differs", case_base, obs_final, content_new,
-                         "after a completed save() a fresh load does not give the saved content")
+        case_base = {"pair": label, "old": old_devs, "new": new_devs, "mode": mode}
+        only_errno = None
+        if isinstance(mode, str) and mode.startswith("fault:"):
+            parts = mode.split(":")
+            faults, plain = [int(parts[1])], False
+            only_errno = int(parts[2]) if len(parts) > 2 else None
         else:
-            if obs_final not in (("ok", content_old), ("ok", content_new)):
-                ctx.fail("save-failed:old-content-lost", case_base, obs_final, content_old,
-                         "save() raised %s and the file holds neither the previous nor the new content" % raised)
-            left = [n for n in final_listing if n != "pyatv.conf"]
-            ctx.note("failed-save-leftover-files:%d" % len(left))
-
-        # --- crash points: real materialisation + oracle
-        groups = []
-        for i in range(len(trace) + 1):
-            pend_len = 0
-            probe = _Replayer(os.path.join(root, "probe%d" % i), names, old_bytes)
-            for op in trace[:i]:
-                probe.step(op)
-            tp = len(probe.pend.get("p0", b""))
-            others = max([len(v) for t, v in probe.pend.items() if t != "p0"] + [0])
-            for fh in probe.fds.values():
-                fh.close()
-            pend_len = tp if tp else others
-            row = {}
-            for k in _prefixes(pend_len, full_prefixes):
-                r = _Replayer(os.path.join(root, "c%d_%d" % (i, k)), names, old_bytes)
-                for op in trace[:i]:
-                    r.step(op)
-                r.crash(k)
-                content = r.target()
-                obs = _fresh_load(loop, r.p("p0"))
-                shutil.rmtree(r.root, ignore_errors=True)
-                inside = (0 < i < len(trace)) or k not in (0, pend_len)
-                ctx.case([label, i, k], inside)
-                ctx.note("crash-point:%s" % ("boundary" if k in (0, pend_len) else "inside-write"))
-                if tp:
-                    row[k] = content
-                else:
-                    row.setdefault(0, content)
-                if obs not in (("ok", content_old), ("ok", content_new)):
-                    if obs[0] == "raises":
-                        kind = "empty-file" if content == b"" else "truncated-file"
-                        sig = "save-crash:%s:load-raises" % kind
-                    else:
-                        sig = "save-crash:loads-neither-old-nor-new"
-                    ctx.fail(sig, dict(case_base, crash_after_ops=i, persisted_prefix=k,
-                                       target_hex=_hex(content)),
-                             obs, "load() gives the complete old or the complete new settings",
-                             "process death after %d of %d file operations of save() (persisted prefix %d) leaves a settings "
-                             "file that %s" % (i, len(trace), k, "load() rejects" if obs[0] == "raises" else "is neither old nor new"))
-            shutil.rmtree(probe.root, ignore_errors=True)
-            groups.append((tp, row))
-        lean_jobs.append((case_base, old_bytes, new_bytes if new_bytes is not None else b"", words, groups, raised,
-                          old_bytes, final_listing.get("pyatv.conf")))
+            faults, plain = None, True
+        n_ops = 0
+        if plain:
+            sc = _scenario(ctx, loop, root, "live", label, old_devs, new_devs)
+            if sc is None:
+                ctx.note("pair-skipped-unchanged")
+                return
+            rec = Recorder(sc["work"], fail_write=(lambda p: True) if mode == "fail" else None)
+            n_ops = _observe(ctx, loop, root, "live", sc, case_base, rec, full_prefixes, lean_jobs)
+            if mode is None:
+                faults = list(range(n_ops))
+                if max_faults is not None and len(faults) > max_faults:
+                    faults = faults[:max_faults]
+        kinds = {}
+        for j in faults or []:
+            # errno of the injected OSError: a rename is tried with every errno a fallback could
+            # plausibly be keyed on (EBUSY bind mount, EXDEV other device, EACCES/EPERM held open)
+            errnos = [only_errno if only_errno is not None else 16]
+            for n, errno_ in enumerate(errnos):
+                sub = "fault%d_%d" % (j, errno_)
+                sc = _scenario(ctx, loop, root, sub, label, old_devs, new_devs)
+                if sc is None:
+                    return
+                rec = Recorder(sc["work"], fault_at=j, fault_errno=errno_)
+                _observe(ctx, loop, root, sub, sc, dict(case_base, mode="fault:%d:%d" % (j, errno_)), rec, False, lean_jobs)
+                if n == 0 and rec.fault_kind == "rename" and only_errno is None:
+                    errnos += [18, 13, 1]
+                elif n == 0 and rec.fault_kind in ("write", "flush", "fsync", "close") and only_errno is None:
+                    errnos += [28]
     finally:
         shutil.rmtree(root, ignore_errors=True)
 
 
 def compare_with_model(ctx, jobs):
     lines = ["crash p0 %s %s %s" % (_hex(old), new.hex() or "-", " ".join(words))
-             for (_c, old, new, words, _g, _r, _o, _f) in jobs]
+             for (_c, old, new, words, _g, _r, _o, _f) in jobs]  # _o = injected fault kind
     answers = ctx.lean(lines)
-    for (case, old, new, words, groups, raised, _o, final), ans in zip(jobs, answers):
+    for (case, old, new, words, groups, raised, fault, final), ans in zip(jobs, answers):
         ctx.validated()
         parts = ans.split(" ")
         if len(parts) != 3:
@@ -551,7 +637,10 @@ def compare_with_model(ctx, jobs):
             continue
         safe, mfinal, mgroups = parts
         mgroups = [g.split(",") for g in mgroups.split("/")]
-        ctx.note("model-safeSave:%s" % safe)
+        ctx.note(("fault-" if fault else "") + "model-safeSave:%s" % safe)
+        if fault and safe != "1":
+            touched = any(len(g) > 1 or g[0] != _hex(old) for g in mgroups)
+            ctx.note("fault-trace-touches-target:%s" % ("yes" if touched else "no"))
         if mfinal != _hex(final):
             ctx.disagree(case, _hex(final), mfinal, where="target content after the complete trace")
         if len(mgroups) != len(groups):
@@ -568,7 +657,7 @@ def compare_with_model(ctx, jobs):
         allc = {c for g in mgroups for c in g}
         if safe == "1" and not allc <= {_hex(old), _hex(new)}:
             ctx.disagree(case, sorted(allc), "safeSaveB = true", where="safe_atomic instance (model inconsistent with its theorem)")
-        if raised is None and safe != "1":
+        if raised is None and safe != "1" and not fault:
             # not a violation by itself (the oracle judges); recorded so that a changed save shape is visible
             ctx.note("completed-save-not-of-safe-shape")
 
